@@ -464,9 +464,15 @@ async fn run_spec(spec: &Spec) -> Out {
 
 /// Directed scenario: a stream is dropped while the request queue is full (the drop's message is lost); after a further
 /// notification the client must unsubscribe, and after the acknowledgement its tables must be empty.
+///
+/// Variants (by seed): 0 the consumer drops the stream while the queue is full; 1 the subscription lags while the queue is
+/// full (the read task itself has to hand the close request to the send task); 2 a subscribe call abandoned by the
+/// application is accepted by the server while the queue is full (again the read task's close request).
 async fn full_queue_drop_case(seed: u64, cycles: usize) -> (Vec<(String, String)>, [usize; 4], usize) {
 	let mut violations = Vec::new();
 	let mut r = Rng::new(seed);
+	let variant = seed % 3;
+	let label = ["drop-with-full-queue", "lag-with-full-queue", "abandoned-subscribe-accepted-with-full-queue"][variant as usize];
 	let (client, mut srv) = jrv::clientsim::client(ClientCfg { sub_buffer: BUFFER, max_concurrent_requests: 1, string_ids: r.bool(), ..Default::default() });
 	let mut unsubs = 0usize;
 	for cyc in 0..cycles {
@@ -485,6 +491,28 @@ async fn full_queue_drop_case(seed: u64, cycles: usize) -> (Vec<(String, String)
 			violations.push(("subscribe-failed/accepted".into(), "setup of the full-queue scenario".into()));
 			break;
 		};
+		let mut h = Some(h);
+		settle().await;
+		// what the tables hold for one live subscription
+		let base = client.verif_table_sizes();
+		// variant 2: a second subscribe call is written, then given up by the application before the server answers
+		let mut abandoned_call_id: Option<Value> = None;
+		if variant == 2 {
+			let c = client.clone();
+			let t2 = tokio::spawn(async move { c.subscribe::<Value, _>("sub", rpc_params!["abandoned"], "unsub").await.map(|_| ()) });
+			settle().await;
+			t2.abort();
+			settle().await;
+			for m in srv.drain_out() {
+				if let ClientOut::Msg { text, .. } = m {
+					if let WireMsg::Single(q) = parse_wire(&text) {
+						if q.method == "sub" {
+							abandoned_call_id = q.id.clone();
+						}
+					}
+				}
+			}
+		}
 		let gate = std::sync::Arc::new(tokio::sync::Notify::new());
 		*srv.ctl.send_gate.lock().unwrap() = Some(gate.clone());
 		let mut callers = Vec::new();
@@ -493,7 +521,21 @@ async fn full_queue_drop_case(seed: u64, cycles: usize) -> (Vec<(String, String)
 			callers.push(tokio::spawn(async move { c.request::<Value, _>("call", rpc_params![i]).await.map(|_| ()).map_err(|e| err_kind(&e)) }));
 			settle().await;
 		}
-		drop(h);
+		match variant {
+			0 => drop(h.take()),
+			1 => {
+				// the stream is not read: one notification more than the buffer holds
+				for k in 0..BUFFER + 1 {
+					srv.push_text(sub_notif("m", &sub_id, json!(k)));
+				}
+			}
+			_ => {
+				if let Some(id) = &abandoned_call_id {
+					srv.push_text(ok_response(id, json!(format!("abandoned-{cyc}"))));
+				}
+			}
+		}
+		settle().await;
 		settle().await;
 		*srv.ctl.send_gate.lock().unwrap() = None;
 		for _ in 0..8 {
@@ -517,10 +559,32 @@ async fn full_queue_drop_case(seed: u64, cycles: usize) -> (Vec<(String, String)
 		};
 		pump(&mut srv, &mut unsubs);
 		settle().await;
-		srv.push_text(sub_notif("m", &sub_id, json!("tick")));
+		if variant == 0 {
+			srv.push_text(sub_notif("m", &sub_id, json!("tick")));
+		}
 		for _ in 0..3 {
 			settle().await;
 			pump(&mut srv, &mut unsubs);
+		}
+		if variant != 0 && violations.is_empty() {
+			// the close request came from the client's own read task: it must get through without any further message from the
+			// server, and while the consumer still holds its (lagged) stream
+			let sizes = client.verif_table_sizes();
+			let want = if variant == 2 { base } else { [0, 0, 0, 0] };
+			if sizes != want {
+				violations.push((
+					format!("tables-not-empty-when-idle/{label}"),
+					format!("cycle {cyc}: after the transport was unblocked and every unsubscribe was acknowledged the tables hold {sizes:?} (requests, subscriptions, batches, handlers), expected {want:?}; {unsubs} unsubscribe requests were written so far"),
+				));
+			}
+		}
+		// the consumer lets go of what it still holds; the first subscription of variant 2 is unsubscribed normally
+		if let Some(hh) = h.take() {
+			drop(hh);
+			for _ in 0..3 {
+				settle().await;
+				pump(&mut srv, &mut unsubs);
+			}
 		}
 		for t in callers {
 			if !matches!(tokio::time::timeout(Duration::from_secs(30), t).await, Ok(Ok(Ok(())))) {
@@ -532,8 +596,8 @@ async fn full_queue_drop_case(seed: u64, cycles: usize) -> (Vec<(String, String)
 	let sizes = client.verif_table_sizes();
 	if sizes != [0, 0, 0, 0] && violations.is_empty() {
 		violations.push((
-			"tables-not-empty-when-idle/drop-with-full-queue".into(),
-			format!("{cycles} cycle(s) of subscribe / drop with a full request queue / further notification / acknowledgement: the tables hold {sizes:?} ({unsubs} unsubscribe requests were written)"),
+			format!("tables-not-empty-when-idle/{label}"),
+			format!("{cycles} cycle(s) of subscribe / {label} / acknowledgement: the tables hold {sizes:?} ({unsubs} unsubscribe requests were written)"),
 		));
 	}
 	(violations, sizes, unsubs)
